@@ -1,5 +1,6 @@
 mod engine;
 mod fam;
+mod fsseam;
 mod props;
 mod refwin;
 mod rng;
